@@ -12,6 +12,19 @@ def _mk(text, args, mode, label, **kw):
     return t
 
 
+# Other object names: one is a proper prefix of another (o1 / o10), one carries a hyphen and an underscore.  Facts and fluents are
+# compared, hashed and printed through their text, so a relation between NAMES is a dimension of its own.
+OTHER_NAMES = {"o2": "o10", "o3": "o1-b_2"}
+
+
+def with_other_names(task: dict) -> dict:
+    t = dict(task)
+    t["objects"] = {OTHER_NAMES.get(o, o): ty for o, ty in task["objects"].items()}
+    t["args"] = [OTHER_NAMES.get(a, a) for a in task["args"]]
+    t["label"] = "[objects o1 o10 o1-b_2] " + task["label"]
+    return t
+
+
 def pre_programs(tier: str, seed: int):
     """(plist, const, pre_tree, origin)"""
     out = [(pl, True, pre, "core") for pl, pre in G.core_preconditions()]
@@ -43,6 +56,8 @@ def applicable_tasks(tier: str, seed: int, cap=None) -> List[dict]:
         text = G.domain_text([("act", params, pre, ["and"])], const=const)
         for args in G.arg_tuples(params, const, limit=lim):
             tasks.append(_mk(text, args, "applicable", render(pre), cap=cap, origin=origin, const=const))
+            if len(tasks) % (7 if tier == "quick" else 5) == 0:
+                tasks.append(with_other_names(tasks[-1]))
     return tasks
 
 
@@ -87,6 +102,8 @@ def apply_tasks(tier: str, seed: int, cap=None, orders=None) -> List[dict]:
                                  cap=cap, origin=origin, const=const, order=o,
                                  max_paths=1500 if tier == "quick" else 6000,
                                  timeout_ms=4000 if tier == "quick" else 20000))
+                if len(tasks) % (7 if tier == "quick" else 5) == 0:
+                    tasks.append(with_other_names(tasks[-1]))
     return tasks
 
 
